@@ -12,10 +12,13 @@ def _call(name, fb, chk):
     if mod == "c20":
         from spec import validity
         return m.run_on(fb, chk, validity.VALID)
+    if name == "c01.w1":
+        from spec import wire
+        return m.w1(fb, chk, wire.STRUCTS)
     if name == "c04.p4":
         from . import common
         return m.p4(fb, chk, common.dispatch_fn(fb), "")
-    if fn in ("d1d2", "r1r2", "r3r4", "d3"):
+    if fn in ("d1d2", "r1r2", "r3r4", "d3", "d4", "p9"):
         return getattr(m, fn)(fb, chk, "")
     if name == "c05.take_single":
         return m.take_single_rule(fb, chk)
@@ -30,15 +33,19 @@ def has(*subs):
 
 XLIST = {
     "C01": [
+        ("c11", {"T1": ("W13", has("get_vring_base:result"))}, {"W13": "the GET_VRING_BASE reply carries (index, next-available) in that order (C11/T1)"}),
+        ("c05.v1", {"V1": ("W14", has("vringfd"))}, {"W14": "the notifier requests' u64 is decoded as the specification says: bit 8 set means no descriptor travels (C05/V1)"}),
         ("c18.b3", {"B3": ("W11", has("ack-helper:value"))}, {"W11": "the acknowledgement written on the backend-request channel carries 0 for success and a non-zero status for every failure (C18/B3)"}),
         ("c14", {"Q5": "W12"}, {"W12": "the backend-request proxy sets NEED_REPLY only when REPLY_ACK was negotiated: its flags come from the negotiated set (C14/Q5)"}),
-        ("c20", {"X2": ("W9", has("MsgHeader"))}, {"W9": "every specification-conformant header (size up to and including the maximum, version 1) is accepted by the receiving side's validator (C20/X2)"}),
+        ("c20", {"X2": "W9"}, {"W9": "every specification-conformant encoding (headers: size up to and including the maximum, version 1; bodies: the protocol's alignment and range rules, no stricter) is accepted by the receiving side's validator (C20/X2)"}),
         ("c03.r1r2", {"R1": ("W10", has("SET_DEVICE_STATE_FD", "CHECK_DEVICE_STATE", "GET_CONFIG")), "R2": ("W10", has("SET_DEVICE_STATE_FD", "CHECK_DEVICE_STATE", "GET_CONFIG"))},
          {"W10": "status words and in-band failure encodings of replies are the specified ones (C03/R1, R2)"}),
         ("c07", {"G1": ("W7", has("SET_LOG_BASE"))}, {"W7": "the descriptor-carrying form of SET_LOG_BASE is composed only when LOG_SHMFD was negotiated (C07/G1)"}),
         ("c08.loops", {"S2": "W8"}, {"W8": "a message delivered in several segments is decoded with the descriptors of its first byte (C08/S2)"}),
     ],
     "C02": [
+        ("c09", {"O1": ("D19", has("recv:order", "recv:count"))}, {"D19": "received descriptors reach the handler complete and in wire order (C09/O1)"}),
+        ("c08.s9", {"S9": "D18"}, {"D18": "both ends bound a message by the same inclusive MAX_MSG_SIZE: what the frontend sends the dispatcher does not refuse (C08/S9)"}),
         ("c07", {"G5": ("D16", has("backend:"))}, {"D16": "the dispatcher's record of the negotiated features changes only in the negotiation arms, so a call the frontend accepts is not dropped later (C07/G5)"}),
         ("c06.a1", {"A1": ("D17", has("wait_for_ack"))}, {"D17": "an acknowledgement that was asked for is awaited before the call returns (C06/A1)"}),
         ("c01.w6", {"W6": "D13"}, {"D13": "the caller's descriptors travel with the first byte on every attempt of the send loop (C01/W6)"}),
@@ -49,25 +56,32 @@ XLIST = {
         ("c07.exact_gates", {"GX": "D15"}, {"D15": "the dispatcher refuses a request for a missing feature only where the protocol ties it to that feature, so an accepted call is not dropped (C07 gate table, exactness)"}),
     ],
     "C03": [
+        ("c02.d1d2", {"D2": "R15"}, {"R15": "the handler is asked about the ring / region / object the request names, so the value reported is that one's (C02/D2)"}),
+        ("c08.s4", {"S4": "R16"}, {"R16": "a closed connection is an error for the caller in bounded time: EPIPE/ECONNRESET are not retried (C08/S4)"}),
         ("c10", {"L1": ("R12", has("Frontend as"))}, {"R12": "request and reply are exchanged under one acquisition of the connection lock, so a caller receives its own reply (C10/L1)"}),
         ("c04", {"P2": "R13"}, {"R13": "acknowledged requests are answered only through the ack helper: no stray reply is left for a later call to misread (C04/P2)"}),
         ("c07", {"G5": ("R14", has("frontend:"))}, {"R14": "the frontend's record of the acked features is what it sent, so it awaits the acknowledgements that carry failures (C07/G5)"}),
         ("c08.loops", {"S2": "R10"}, {"R10": "a reply delivered in several segments keeps its descriptor and is retried, not dropped (C08/S2)"}),
         ("c02.d3", {"D3": "R11"}, {"R11": "the Arc/Mutex/RwLock adapters forward every operation, so the device's own result is what is reported (C02/D3)"}),
-        ("c20", {"X2": ("R8", has("MsgHeader"))}, {"R8": "header validators accept every message the senders may produce (C20/X2)"}),
+        ("c20", {"X2": "R8"}, {"R8": "header and body validators accept exactly the protocol-valid encodings: a good reply is not turned into an error, an invalid one not into a success (C20/X2)"}),
         ("c16", {"H2": "R9"}, {"R9": "the daemon stops serving and closes the connection on a request error, so a caller waiting for a reply gets an error (C16/H2)"}),
     ],
     "C04": [
+        ("c08.loops", {"S2": "P16"}, {"P16": "a request delivered in several segments is reassembled at the running offset, so it is consumed and answered (C08/S2)"}),
+        ("c02.d1d2", {"D2": "P17"}, {"P17": "each request's arguments are decoded from its own fields: a well-formed request is not refused for another field's value (C02/D2)"}),
+        ("c07", {"G5": ("P18", has("backend:"))}, {"P18": "the acked protocol features are the last value sent, so acknowledgements stop when REPLY_ACK is negotiated away (C07/G5)"}),
         ("c01.w6", {"W6": "P10"}, {"P10": "replies are written completely (looping send, descriptors with the first byte) (C01/W6)"}),
         ("c08.loops", {"S1": "P11"}, {"P11": "reply senders loop over partial writes and compare the total (C08/S1)"}),
         ("c02.d3", {"D3": ("P12", has("ReqHandler"))}, {"P12": "the handler adapters invoke the same-named method, so the acknowledgement reports that method's result (C02/D3)"}),
         ("c08.s7s8", {"S8": "P13"}, {"P13": "a request body arriving in several segments is read completely (C08/S8 and the looping receiver)"}),
-        ("c20", {"X2": ("P7", has("MsgHeader"))}, {"P7": "well-formed headers (size up to and including the maximum) are accepted, so their requests are consumed and answered (C20/X2)"}),
+        ("c20", {"X2": "P7"}, {"P7": "well-formed headers and bodies are accepted by the validators (no stricter than the protocol), so their requests are consumed and answered (C20/X2)"}),
         ("c03.r1r2", {"R1": "P8", "R2": "P8"}, {"P8": "reply size and payload agree for success and in-band failure encodings (C03/R1, R2)"}),
         ("c05.v1", {"V1": ("P15", has("policy:optional-fd"))}, {"P15": "a notifier request without a descriptor (bit 8 set) passes the attached-file policy, so it is consumed and acknowledged (C05/V1)"}),
         ("c07.exact_gates", {"GX": "P14"}, {"P14": "a well-formed request is refused for a missing feature only where the protocol ties it to that feature; otherwise it is handled and answered (C07 gate table, exactness)"}),
     ],
     "C06": [
+        ("c03.r3r4", {"R4": "A11"}, {"A11": "a reply receiver's result is not discarded: a malformed reply is not reported as success (C03/R4)"}),
+        ("c08.s3", {"S3": "A10"}, {"A10": "a reply is accepted only if its header AND its body pass their validators (C08/S3)"}),
         ("c03.r3r4", {"R3": "A9"}, {"A9": "a reply value outside the protocol's accept set is never turned into a success (C03/R3)"}),
         ("c05.take_single", {"V1": ("A7", has("take_single_file"))}, {"A7": "a reply's descriptor is taken only when exactly one was attached (C05/V1 take_single_file)"}),
         ("c08.loops", {"S2": "A8"}, {"A8": "descriptors attached to the first segment are not lost or laundered by later segments (C08/S2)"}),
@@ -77,9 +91,14 @@ XLIST = {
         ("c14", {"Q5": "G6"}, {"G6": "the backend-request proxy's feature flags are the negotiated ones, so its own gates (G3) test the negotiated state (C14/Q5)"}),
     ],
     "C08": [
+        ("c04.p9", {"P9": "S13"}, {"S13": "the size a reply header announces is the size of what follows it, so a peer framing by the header stays in step (C04/P9)"}),
         ("c05.v5", {"V5": "S12"}, {"S12": "a receive never runs past the buffer of the message being read into the bytes of the next message (C05/V5)"}),
     ],
     "C10": [
+        ("c01.w1", {"W1": ("L19", has("Gpu", "VhostUserU64", "VhostUserVringState", "VhostUserConfig", "VhostUserInflight", "VhostUserLog", "VhostUserMemory"))}, {"L19": "reply structures have the specified size: a reply is read completely, nothing of it is left for the next caller (C01/W1)"}),
+        ("c05.v1", {"V1": ("L18", has("vringfd"))}, {"L18": "a well-formed notifier request is decoded, not refused before its acknowledgement (the caller waits holding the lock) (C05/V1)"}),
+        ("c03.r1r2", {"R1": ("L16", has("GET_CONFIG"))}, {"L16": "a reply never carries more than its header announces: no stray bytes are left for the next caller (C03/R1)"}),
+        ("c07", {"G1": ("L17", has("SET_LOG_BASE"))}, {"L17": "the reply-bearing form of SET_LOG_BASE is used only when the backend will answer it, so the caller does not wait holding the lock (C07/G1)"}),
         ("c18.b3", {"B3": ("L13", has("ack-helper:condition"))}, {"L13": "the frontend-side service acknowledges exactly the requests that asked for it: no stray acknowledgement for the next caller to consume (C18/B3)"}),
         ("c03.r3r4", {"R4": "L14"}, {"L14": "each call waits for exactly the kind of reply the backend writes for it, so no caller blocks holding the lock (C03/R4)"}),
         ("c14", {"Q4": ("L15", has("proto-store"))}, {"L15": "the daemon's record of the acked protocol features is the last value sent, so the proxy never waits for an acknowledgement that was negotiated away (C14/Q4)"}),
@@ -91,46 +110,80 @@ XLIST = {
         ("c04.p4", {"P4": "L9"}, {"L9": "an acknowledgement the caller waits for (holding the lock) is always written (C04/P4)"}),
     ],
     "C11": [
+        ("c02.d1d2", {"D2": ("T8", has("GET_VRING_BASE", "SET_VRING_ENABLE", "SET_VRING_KICK", "SET_VRING_CALL", "SET_VRING_ERR"))}, {"T8": "ring requests act on the ring named by the message (index from the index field) (C02/D2)"}),
+        ("c07", {"G2": ("T9", has("RESET_DEVICE", "SET_VRING_ENABLE"))}, {"T9": "the reset / enable transitions are tied to their own protocol feature only (C07/G2)"}),
+        ("c17", {"E3": ("T10", has("slice"))}, {"T10": "each worker dispatches on the rings of its own mask, so the registered id names the ring that was started (C17/E3)"}),
         ("c02.d3", {"D3": ("T6", has("Vring"))}, {"T6": "the lock-backed ring types forward every setter to the same-named state method (C02/D3)"}),
         ("c14.q12", {"Q12": "T7"}, {"T7": "the ring state's setters perform exactly the queue operation they are named after (C14/Q12)"}),
     ],
     "C20": [
+        ("c02.d4", {"D4": ("X4", has("set_mem_table"))}, {"X4": "the frontend accepts memory tables of 1 to 32 regions, the protocol's range (C02/D4)"}),
         ("c05.v1", {"V1": ("X3", has("site:SET_MEM_TABLE"))}, {"X3": "the region validator is applied to every region of a memory table before it is accepted (C05/V1)"}),
     ],
     "C12": [
+        ("c05.v2", {"V2": ("K16", has("VringEpollHandler", "VringT<", "VringState"))}, {"K16": "no panic in the worker loop or the ring accessors: a dead worker handles no kick (C05/V2)"}),
+        ("c14.q12", {"Q12": "K17"}, {"K17": "the ring state's setters store / forward the caller's value: a disable really disables (C14/Q12)"}),
+        ("c02.d1d2", {"D2": ("K15", has("GET_VRING_BASE", "SET_VRING_ENABLE", "SET_VRING_KICK"))}, {"K15": "a stop / enable / kick request acts on the ring it names (C02/D2)"}),
         ("c17.e5e6", {"E5": "K13"}, {"K13": "a ring event never makes the worker leave its loop, so later kicks still find a worker (C17/E5)"}),
         ("c16.h9", {"H9": "K14"}, {"K14": "the workers are told to exit only when serving ends or the handler is dropped, never per connection (C16/H9)"}),
         ("c16", {"H4": ("K12", has("exit-events"))}, {"K12": "the workers are told to exit when serving ends, and only then (C16/H4)"}),
-        ("c02.d3", {"D3": ("K10", has("VhostUserBackend<"))}, {"K10": "the backend adapters forward handle_event unconditionally (blocking lock), so a consumed kick is processed (C02/D3)"}),
+        ("c02.d3", {"D3": ("K10", has("VhostUserBackend<", "VringT<"))}, {"K10": "the backend adapters forward handle_event unconditionally (blocking lock), so a consumed kick is processed (C02/D3)"}),
         ("c17", {"E2": "K11"}, {"K11": "a custom listener cannot take the exit id and stop the worker (C17/E2)"}),
-        ("c17", {"E3": ("K9", has("id-source", "first-thread", "one-worker"))}, {"K9": "the registered event id and worker are the ring's own, so its wake-ups reach its handler (C17/E3)"}),
+        ("c17", {"E3": ("K9", has("id-source", "first-thread", "one-worker", "slice", "thread-order"))}, {"K9": "the registered event id and worker are the ring's own, so its wake-ups reach its handler (C17/E3)"}),
     ],
     "C13": [
+        ("c02.d1d2", {"D2": ("M12", has("SET_MEM_TABLE", "ADD_MEM_REG", "REM_MEM_REG"))}, {"M12": "the memory-table handlers receive the regions and descriptors of the message (C02/D2)"}),
+        ("c09", {"O1": ("M13", has("recv:order", "recv:count"))}, {"M13": "received descriptors keep their wire order, so region i is backed by file i (C09/O1)"}),
+        ("c05.v1", {"V1": ("M10", has("site:SET_MEM_TABLE"))}, {"M10": "a memory table is accepted only with exactly one descriptor per region (C05/V1)"}),
+        ("c01.w5", {"W5": ("M11", has("Region"))}, {"M11": "the frontend announces a region with its guest address and user address in their own fields (C01/W5)"}),
         ("c14", {"Q3": ("M8", has("set_vring_addr"))}, {"M8": "each ring address is translated by its own lookup in the table (C14/Q3)"}),
         ("c20", {"X2": ("M7", has("MemoryRegion"))}, {"M7": "only regions whose guest/user/mmap ranges do not wrap are accepted into the table (C20/X2)"}),
     ],
     "C14": [
-        ("c19.u5", {"U5": ("Q15", has("-range"))}, {"Q15": "kernel backends: a ring part is accepted only if [addr, addr + its virtio length) lies in guest memory (C19/U5)"}),
+        ("c20", {"X2": ("Q17", has("VringAddr", "VringState", "VhostUserU64"))}, {"Q17": "ring configuration messages are accepted exactly when protocol-valid (no stricter alignment, no laxer flags) (C20/X2)"}),
+        ("c13", {"M5": "Q16"}, {"Q16": "a removed region's translation entry is removed with it (keyed by the guest address) (C13/M5)"}),
+        ("c19.u5", {"U5": "Q15"}, {"Q15": "kernel backends: a ring part is accepted only if [addr, addr + its virtio length) lies in guest memory (C19/U5)"}),
         ("c13", {"M4": "Q13"}, {"Q13": "every accepted memory table replaces the mappings and is announced to the device: ring operations act on the latest table (C13/M4)"}),
         ("c11", {"T1": ("Q10", has("set_features"))}, {"Q10": "an accepted SET_FEATURES always delivers its effects (no early return) (C11/T1)"}),
         ("c13", {"M1": ("Q11", lambda k: "after-commit" in k and "update_memory" not in k)}, {"Q11": "translation entries and memory table change together (C13/M1)"}),
-        ("c02.d1d2", {"D2": ("Q9", has("SET_FEATURES"))}, {"Q9": "the SET_FEATURES handler receives the value on the wire, unmasked (C02/D2)"}),
+        ("c02.d1d2", {"D2": ("Q9", has("SET_FEATURES", "SET_VRING_NUM", "SET_VRING_ADDR", "SET_VRING_BASE", "GET_VRING_BASE", "SET_PROTOCOL_FEATURES", "SET_BACKEND_REQ_FD"))}, {"Q9": "the ring-configuration and feature handlers receive the values on the wire, field by field (C02/D2)"}),
     ],
     "C15": [
+        ("c02.d1d2", {"D2": ("B12", has("SET_LOG_BASE", "SET_LOG_FD"))}, {"B12": "the SET_LOG_BASE handler receives the log area of the message and its descriptor (C02/D2)"}),
+        ("c20", {"X2": ("B13", has("VhostUserLog"))}, {"B13": "a log area is accepted exactly when it is non-empty and does not wrap (C20/X2)"}),
+        ("c19.u3_vring_addr", {"U3": ("B11", has("log_guest_addr"))}, {"B11": "kernel backends: the used-ring log address handed to the kernel is the configured log address (C19/U3)"}),
         ("c03.r1r2", {"R1": ("B6", has("SET_LOG_BASE"))}, {"B6": "SET_LOG_BASE is confirmed to the frontend only after the handler accepted the log (C03/R1)"}),
     ],
     "C18": [
+        ("c02.d3", {"D3": ("B14", has("FrontendReqHandler"))}, {"B14": "the Mutex adapter of the frontend-side handler forwards every request to the same-named method (C02/D3)"}),
+        ("c08.s4", {"S4": "B9"}, {"B9": "an interrupted wait for the acknowledgement is retried (EINTR is the retry class) (C08/S4)"}),
         ("c14", {"Q4": ("B7", has("proto-store"))}, {"B7": "the daemon records the acknowledged protocol features unmasked, so the proxy inherits REPLY_ACK (C14/Q4)"}),
         ("c08.loops", {"S2": "B8"}, {"B8": "the acknowledgement is read with unconditional retry on EINTR/EAGAIN (C08/S2)"}),
         ("c20", {"X2": ("B5", has("MMap", "SharedMsg"))}, {"B5": "validators of the backend-request bodies accept exactly the protocol-valid encodings (C20/X2)"}),
         ("c14", {"Q5": "B6"}, {"B6": "the proxy handed to the device inherits the negotiated reply-ack setting (C14/Q5)"}),
     ],
     "C16": [
+        ("c20", {"X2": ("H12", has("MemoryRegion"))}, {"H12": "regions whose ranges wrap are refused, so the translation arithmetic cannot overflow (a panic skips the connection shutdown) (C20/X2)"}),
+        ("c14", {"Q5": "H13", "Q4": ("H14", has("proto-store"))}, {"H13": "the proxy waits for acknowledgements only when they were negotiated: no thread is parked forever at teardown (C14/Q5)",
+                                                                   "H14": "the acked protocol features are the last value sent (C14/Q4)"}),
+        ("c08.loops", {"S1": ("H10", has("retry"))}, {"H10": "a write to a closed peer ends the reply loop (only SocketRetry re-iterates), so the daemon thread exits (C08/S1)"}),
+        ("c17", {"E2": ("H11", has("fits-event-id"))}, {"H11": "a listener id cannot alias a ring's event id: the worker is not parked on an idle kick descriptor at teardown (C17/E2)"}),
         ("c05.v2", {"V2": ("H8", has("VhostUserHandler"))}, {"H8": "no request can panic the daemon thread: a panic would skip the shutdown of the connection and the state reset (C05/V2)"}),
         ("c08.s4", {"S4": "H7"}, {"H7": "errno classes: a closed peer (EPIPE/ECONNRESET) is a broken socket, not a retry (C08/S4)"}),
     ],
     "C17": [
-        ("c02.d3", {"D3": ("E4", has("VhostUserBackend<"))}, {"E4": "the backend adapters forward handle_event with its arguments unchanged (C02/D3)"}),
+        ("c12", {"K3": ("E9", has("wait-interrupted"))}, {"E9": "an interrupted epoll wait is retried: a signal does not end the worker that owns the queues (C12/K3)"}),
+        ("c05.v2", {"V2": ("E10", has("VringEpollHandler"))}, {"E10": "the dispatcher's ring lookup is bounded by the event id it was given, unnarrowed (C05/V2)"}),
+        ("c11", {"T1": ("E11", has("set_features"))}, {"E11": "rings of a frontend without PROTOCOL_FEATURES are enabled (and registered) by SET_FEATURES (C11/T1)"}),
+        ("c11", {"T3": ("E7", has("always-decides", "add", "delete"))}, {"E7": "the owning worker is the one whose mask has the queue's bit, and its registration is always updated (C11/T3)"}),
+        ("c11", {"T2": "E8"}, {"E8": "a stopped ring is unregistered while its descriptor is still known, so no second worker handles its kicks (C11/T2)"}),
+        ("c02.d3", {"D3": ("E4", has("VhostUserBackend<", "VringT<"))}, {"E4": "the backend adapters forward handle_event with its arguments unchanged (C02/D3)"}),
+    ],
+    "C09": [
+        ("c08.loops", {"S2": ("O11", has("fds", "files"))}, {"O11": "descriptors received with a later segment are dropped (closed), those of the first are kept: none is lost or kept twice (C08/S2)"}),
+        ("c08.s4", {"S4": "O8"}, {"O8": "a closed peer is a broken socket, not a retry: the connection thread ends and releases the descriptors it holds (C08/S4)"}),
+        ("c08.s7s8", {"S8": "O9"}, {"O9": "end of stream leaves every receive loop: the thread does not spin holding the descriptors received with the header (C08/S8)"}),
+        ("c11", {"T3": ("O10", has("add", "delete"))}, {"O10": "a kick descriptor is taken out of the epoll set when its ring stops, before it is closed (C11/T3)"}),
     ],
 }
 
